@@ -331,7 +331,10 @@ func (c *Canary) handleTCP(eh *ethernet.Frame, iph *ipv4.Header, data []byte) er
 		// no state found
 		state = c.NewState(iph.Src, hdr.Source, iph.Dst, hdr.Destination)
 		state.State = SocketListen
-		c.stateTable.Add(state)
+		if !c.stateTable.Add(state) {
+			// state table full: drop the connection attempt
+			return nil
+		}
 
 		// or is state == socket?
 
